@@ -12,6 +12,11 @@ func init() {
 			{Name: "batch-with-plan-cache", Pkg: ".", Files: []string{"root/fed.go", "root/c01.go", "root/c08.go"}, Entry: "VerifBatchCached", Mode: "seq", Native: true,
 				Reach:     []string{"cached batch compared"},
 				Functions: []string{"(*Gateway).queryHandler", "planner.(*CachedPlanner).Plan", "planner.(*CachedPlanner).hash", "planner.sanitizeSelectionSet", "executor.ParallelExecutor.Execute", "planner.ScrubFields.Clean"}},
+			// the elements of a batch are planned by one goroutine each, through one shared planner: with the caching
+			// planner, two concurrent Plan calls on a fresh or used cache, every interleaving, symbolic clock
+			{Name: "batch-elements-share-plan-cache", Pkg: "planner", Files: []string{"planner/c14.go"}, Entry: "VerifCacheConcurrent", Mode: "all", Race: true,
+				Reach:     []string{"concurrent plans", "concurrent plans on a used cache"},
+				Functions: []string{"planner.(*CachedPlanner).Plan", "planner.(*CachedPlanner).clean"}},
 		},
 		Assume: []string{
 			"batch-with-plan-cache: the real planner behind the caching planner and the real executor against evaluating services; every ordered pair of a 6-operation pool (helper-field pairs, a named operation, a root __typename), on a fresh gateway or after an earlier batch; canonical schedule",
